@@ -237,3 +237,391 @@ package readline
 //@   terminates
 //@   requires moveok(rl)
 //@   ensures [movement-never-edits] *rl.line == old(*rl.line)
+
+// ---------------------------------------------------------------------------------------
+// C11: the terminal mode is restored on every way out of Readline, the panic of a bound command included.
+// ensures_always is checked at every return and, for every call of the body that may panic, after the
+// deferred calls armed at that point have run on an arbitrary heap.
+
+//@ func (*Shell).Readline
+//@   props C11
+//@   assume_nopanic the preconditions of what the main loop calls are its composition (A-LOOP); only the exits matter here
+//@   noinline
+//@   ensures_always [termios-restored] tmode() == old(tmode())
+
+// ---------------------------------------------------------------------------------------
+// C01: the command sweep.  Every bound command is a method of *Shell run by the main loop on a shell that
+// satisfies the standing invariant fullok (the components exist and point at each other, the cursor is in
+// range, the buffer holds well-formed text).  The commands below are proved panic-free for every such
+// shell with no further annotation: each index, slice, nil dereference and callee precondition in their
+// bodies (and in what is inlined into them) is an obligation.  Commands that need more than that (loop
+// invariants, contracts on the completion / display engines) are listed in DESIGN.md §4 C01 as not covered.
+//@ pred fullok(rl *Shell) = viok(rl) && core.cok(rl.cursor) && rl.Config != nil && rl.Config.Vars != nil && rl.Macros != nil && rl.Prompt != nil
+
+//@ func (*Shell).autosuggestDisable
+//@   props C01
+//@   terminates
+//@   requires fullok(rl)
+//@   ensures [keeps-invariant] fullok(rl)
+
+//@ func (*Shell).autosuggestEnable
+//@   props C01
+//@   terminates
+//@   requires fullok(rl)
+//@   ensures [keeps-invariant] fullok(rl)
+
+//@ func (*Shell).autosuggestToggle
+//@   props C01
+//@   terminates
+//@   requires fullok(rl)
+//@   ensures [keeps-invariant] fullok(rl)
+
+//@ func (*Shell).backwardKillWord
+//@   props C01
+//@   terminates
+//@   requires fullok(rl)
+
+//@ func (*Shell).backwardShellWord
+//@   props C01
+//@   terminates
+//@   requires fullok(rl)
+
+//@ func (*Shell).bracketedPasteBegin
+//@   props C01
+//@   terminates
+//@   requires fullok(rl)
+//@   ensures [keeps-invariant] fullok(rl)
+
+//@ func (*Shell).capitalizeWord
+//@   props C01
+//@   terminates
+//@   requires fullok(rl)
+
+//@ func (*Shell).characterSearch
+//@   props C01
+//@   terminates
+//@   requires fullok(rl)
+
+//@ func (*Shell).characterSearchBackward
+//@   props C01
+//@   terminates
+//@   requires fullok(rl)
+
+//@ func (*Shell).copyBackwardWord
+//@   props C01
+//@   terminates
+//@   requires fullok(rl)
+//@   ensures [keeps-invariant] fullok(rl)
+
+//@ func (*Shell).copyForwardWord
+//@   props C01
+//@   terminates
+//@   requires fullok(rl)
+//@   ensures [keeps-invariant] fullok(rl)
+
+//@ func (*Shell).copyRegionAsKill
+//@   props C01
+//@   terminates
+//@   requires fullok(rl)
+//@   ensures [keeps-invariant] fullok(rl)
+
+//@ func (*Shell).deleteHorizontalWhitespace
+//@   props C01
+//@   terminates
+//@   requires fullok(rl)
+//@   ensures [keeps-invariant] fullok(rl)
+
+//@ func (*Shell).deleteWord
+//@   props C01
+//@   terminates
+//@   requires fullok(rl)
+
+//@ func (*Shell).digitArgument
+//@   props C01
+//@   terminates
+//@   requires fullok(rl)
+//@   ensures [keeps-invariant] fullok(rl)
+
+//@ func (*Shell).downLine
+//@   props C01
+//@   terminates
+//@   requires fullok(rl)
+
+//@ func (*Shell).exchangePointAndMark
+//@   props C01
+//@   terminates
+//@   requires fullok(rl)
+//@   ensures [keeps-invariant] fullok(rl)
+
+//@ func (*Shell).forwardBackwardDeleteChar
+//@   props C01
+//@   terminates
+//@   requires fullok(rl)
+
+//@ func (*Shell).forwardShellWord
+//@   props C01
+//@   terminates
+//@   requires fullok(rl)
+
+//@ func (*Shell).historySourceNext
+//@   props C01
+//@   terminates
+//@   requires fullok(rl)
+//@   ensures [keeps-invariant] fullok(rl)
+
+//@ func (*Shell).historySourcePrev
+//@   props C01
+//@   terminates
+//@   requires fullok(rl)
+//@   ensures [keeps-invariant] fullok(rl)
+
+//@ func (*Shell).keywordDecrease
+//@   props C01
+//@   terminates
+//@   requires fullok(rl)
+
+//@ func (*Shell).keywordIncrease
+//@   props C01
+//@   terminates
+//@   requires fullok(rl)
+
+//@ func (*Shell).killWord
+//@   props C01
+//@   terminates
+//@   requires fullok(rl)
+//@   ensures [keeps-invariant] fullok(rl)
+
+//@ func (*Shell).redo
+//@   props C01
+//@   terminates
+//@   requires fullok(rl)
+
+//@ func (*Shell).setMark
+//@   props C01
+//@   terminates
+//@   requires fullok(rl)
+
+//@ func (*Shell).tabInsert
+//@   props C01
+//@   terminates
+//@   requires fullok(rl)
+
+//@ func (*Shell).transposeChars
+//@   props C01
+//@   terminates
+//@   requires fullok(rl)
+//@   ensures [keeps-invariant] fullok(rl)
+
+//@ func (*Shell).undoLast
+//@   props C01
+//@   terminates
+//@   requires fullok(rl)
+
+//@ func (*Shell).upLine
+//@   props C01
+//@   terminates
+//@   requires fullok(rl)
+
+//@ func (*Shell).viAddNext
+//@   props C01
+//@   terminates
+//@   requires fullok(rl)
+
+//@ func (*Shell).viArgDigit
+//@   props C01
+//@   terminates
+//@   requires fullok(rl)
+//@   ensures [keeps-invariant] fullok(rl)
+
+//@ func (*Shell).viBackToIndent
+//@   props C01
+//@   terminates
+//@   requires fullok(rl)
+//@   ensures [keeps-invariant] fullok(rl)
+
+//@ func (*Shell).viBackwardBlankWord
+//@   props C01
+//@   terminates
+//@   requires fullok(rl)
+
+//@ func (*Shell).viBackwardBlankWordEnd
+//@   props C01
+//@   terminates
+//@   requires fullok(rl)
+
+//@ func (*Shell).viBackwardDeleteChar
+//@   props C01
+//@   terminates
+//@   requires fullok(rl)
+
+//@ func (*Shell).viBackwardWord
+//@   props C01
+//@   terminates
+//@   requires fullok(rl)
+
+//@ func (*Shell).viBackwardWordEnd
+//@   props C01
+//@   terminates
+//@   requires fullok(rl)
+
+//@ func (*Shell).viChangeCase
+//@   props C01
+//@   terminates
+//@   requires fullok(rl)
+
+//@ func (*Shell).viChangeEol
+//@   props C01
+//@   terminates
+//@   requires fullok(rl)
+
+//@ func (*Shell).viEndOfLine
+//@   props C01
+//@   terminates
+//@   requires fullok(rl)
+//@   ensures [keeps-invariant] fullok(rl)
+
+//@ func (*Shell).viFindNextChar
+//@   props C01
+//@   terminates
+//@   requires fullok(rl)
+
+//@ func (*Shell).viFindNextCharSkip
+//@   props C01
+//@   terminates
+//@   requires fullok(rl)
+
+//@ func (*Shell).viFindPrevChar
+//@   props C01
+//@   terminates
+//@   requires fullok(rl)
+
+//@ func (*Shell).viFindPrevCharSkip
+//@   props C01
+//@   terminates
+//@   requires fullok(rl)
+
+//@ func (*Shell).viFirstPrint
+//@   props C01
+//@   terminates
+//@   requires fullok(rl)
+//@   ensures [keeps-invariant] fullok(rl)
+
+//@ func (*Shell).viForwardBlankWord
+//@   props C01
+//@   terminates
+//@   requires fullok(rl)
+
+//@ func (*Shell).viForwardBlankWordEnd
+//@   props C01
+//@   terminates
+//@   requires fullok(rl)
+
+//@ func (*Shell).viForwardWordEnd
+//@   props C01
+//@   terminates
+//@   requires fullok(rl)
+
+//@ func (*Shell).viGotoColumn
+//@   props C01
+//@   terminates
+//@   requires fullok(rl)
+//@   ensures [keeps-invariant] fullok(rl)
+
+//@ func (*Shell).viGotoMark
+//@   props C01
+//@   terminates
+//@   requires fullok(rl)
+//@   ensures [keeps-invariant] fullok(rl)
+
+//@ func (*Shell).viInsertMode
+//@   props C01
+//@   terminates
+//@   requires fullok(rl)
+
+//@ func (*Shell).viKillEol
+//@   props C01
+//@   terminates
+//@   requires fullok(rl)
+//@   ensures [keeps-invariant] fullok(rl)
+
+//@ func (*Shell).viKillLine
+//@   props C01
+//@   terminates
+//@   requires fullok(rl)
+
+//@ func (*Shell).viRedo
+//@   props C01
+//@   terminates
+//@   requires fullok(rl)
+
+//@ func (*Shell).viSelectABlankWord
+//@   props C01
+//@   terminates
+//@   requires fullok(rl)
+//@   ensures [keeps-invariant] fullok(rl)
+
+//@ func (*Shell).viSelectAShellWord
+//@   props C01
+//@   terminates
+//@   requires fullok(rl)
+
+//@ func (*Shell).viSelectAWord
+//@   props C01
+//@   terminates
+//@   requires fullok(rl)
+//@   ensures [keeps-invariant] fullok(rl)
+
+//@ func (*Shell).viSelectInBlankWord
+//@   props C01
+//@   terminates
+//@   requires fullok(rl)
+//@   ensures [keeps-invariant] fullok(rl)
+
+//@ func (*Shell).viSelectInShellWord
+//@   props C01
+//@   terminates
+//@   requires fullok(rl)
+//@   ensures [keeps-invariant] fullok(rl)
+
+//@ func (*Shell).viSelectInWord
+//@   props C01
+//@   terminates
+//@   requires fullok(rl)
+//@   ensures [keeps-invariant] fullok(rl)
+
+//@ func (*Shell).viSetMark
+//@   props C01
+//@   terminates
+//@   requires fullok(rl)
+//@   ensures [keeps-invariant] fullok(rl)
+
+//@ func (*Shell).yankLastArg
+//@   props C01
+//@   terminates
+//@   requires fullok(rl)
+//@   ensures [keeps-invariant] fullok(rl)
+
+// commands repaired by fix: commits (DESIGN.md §10), proved panic-free with their loop invariants
+//@ func (*Shell).autosuggestAccept
+//@   trusted not proved yet (history match preconditions); only its precondition is used by callers
+//@   requires fullok(rl)
+
+//@ func (*Shell).viForwardChar
+//@   props C01
+//@   terminates
+//@   requires fullok(rl)
+//@   loop 1 invariant fullok(rl)
+
+//@ func (*Shell).viBackwardChar
+//@   props C01
+//@   terminates
+//@   requires fullok(rl)
+//@   ensures [keeps-invariant] fullok(rl)
+//@   loop 1 invariant fullok(rl)
+
+//@ func (*Shell).viYankWholeLine
+//@   props C01
+//@   terminates
+//@   requires fullok(rl)
+//@   ensures [keeps-invariant] fullok(rl)
+
